@@ -338,6 +338,7 @@ def concretise(c, wd):
     inp = {"start": lim(start), "ivtOff": ivt_off, "ils": ils, "appLen": len(app), "flags": flags, "cfgKind": c["cfg"],
            "cfgLen": len(cfg_bytes), "entry": lim(entry), "ver": ver, "nSrk": c["nSrk"], "srcIdx": src, "fast": fast,
            "imgTgt": c["tgt"], "vfyIdx": 0 if fast else c["tgt"], "macLen": c["macLen"], "dekLen": c["dekLen"],
+           "nonceGiven": c.get("nonceLen", 13) if (flags == "enc" and c["nonceGiven"]) else 0,  # length of the supplied nonce, 0 = generated
            "xmcdKind": c.get("xmcdKind", "raw") if c["cfg"] == "xmcd" else "none",
            "cfgVer": cfg_bytes[3] if c["cfg"] == "dcd" else 0, "dcdCmds": dcd_cmds(cfg_bytes) if c["cfg"] == "dcd" else []}
     ctx = {"case": c, "wd": wd, "app": app, "cfg_bytes": cfg_bytes, "cfg_cls": cfg_cls, "start": start, "inp": inp, "family": fam, "xmcd_src": xmcd_src,
@@ -399,7 +400,7 @@ def concretise(c, wd):
             tgt = sections[-1]["options"][3]["SecretKey_TargetIndex"]
             dk = {"Decrypt_Engine": "ANY", "Decrypt_EngineConfiguration": "0", "Decrypt_VerifyIndex": tgt, "Decrypt_MacBytes": c["macLen"]}
             if c["nonceGiven"]:
-                ctx["nonce_given"] = bytes(r.randrange(256) for _ in range(13))
+                ctx["nonce_given"] = bytes(r.randrange(256) for _ in range(c.get("nonceLen", 13)))
                 with open(os.path.join(wd, "nonce.bin"), "wb") as f:
                     f.write(ctx["nonce_given"])
                 dk["Decrypt_Nonce"] = "nonce.bin"
@@ -1326,6 +1327,11 @@ def run(tier):
     want_d = {(sh, vs, f) for sh in ("hdr", "one", "wr", "chk", "misc", "mix") for vs in (0, 1, 2) for f in ("plain", "auth", "enc")}
     if want_d - have_d or not any(c["cfg"] == "dcd" and c["cfgLen"] == 4 and c["dcdVer"] == 0x40 for c in cases):
         raise Machinery(f"GEN does not span the DCD shape dimension: missing {sorted(want_d - have_d)[:5]}")
+    # ... and the supplied nonce of an encrypted image: every legal length x encrypted data below / at / above 2^16 bytes
+    have_n = {(c["nonceLen"], (-(-c["appLen"] // 16) * 16 >= 0x10000)) for c in cases if c["flags"] == "enc" and c["nonceGiven"] and c["appLen"] >= 0xF000}
+    want_n = {(n, over) for n in range(7, 14) for over in (False, True)}
+    if want_n - have_n:
+        raise Machinery(f"GEN does not span nonce length x CCM length-field boundary: missing {sorted(want_n - have_n)[:5]}")
     prepare_xmcd()
     failed = {k: note for k, (b, note) in _xmcd_tmpl.items() if b is None}
     v.extra["xmcd_blocks"] = {"golden": {k: len(xmcd_golden(k)) for k in sorted(XMCD_KIND_CFG)},
